@@ -213,6 +213,24 @@ func (g *zzGen) zzGenNPTiny(name, ns string) *netv1.NetworkPolicy {
 	return np
 }
 
+// zzGenNPMenu: one rule in a chosen direction; menu sizes are parameters (selector menu: all / app=a / NotIn[a,z])
+func (g *zzGen) zzGenNPMenu(name, ns string, nSel, nPeers, nPorts int) *netv1.NetworkPolicy {
+	np := &netv1.NetworkPolicy{
+		TypeMeta:   metav1.TypeMeta{Kind: "NetworkPolicy", APIVersion: "networking.k8s.io/v1"},
+		ObjectMeta: metav1.ObjectMeta{Name: name, Namespace: ns},
+	}
+	np.Spec.PodSelector = zzSelMenu(vf_Choose(name+".sel", nSel))
+	rn := name + ".r"
+	peers := g.zzPeersMenu(rn, vf_Choose(rn+".peers", nPeers))
+	ports := zzPortsMenu(rn, vf_Choose(rn+".ports", nPorts))
+	if vf_Choose(name+".dir", 2) == 0 {
+		np.Spec.Ingress = []netv1.NetworkPolicyIngressRule{{From: peers, Ports: ports}}
+	} else {
+		np.Spec.Egress = []netv1.NetworkPolicyEgressRule{{To: peers, Ports: ports}}
+	}
+	return np
+}
+
 // ---- admin policy menus -------------------------------------------------------------------------
 
 func zzAdmSubject(k int) apisv1a.AdminNetworkPolicySubject {
